@@ -218,7 +218,7 @@ theorem shuffle_correct_regs (cfg : Cfg) (f : FrameIn) (vals : Vals) (hr : RegOn
     obtain ⟨hwf, hsdm⟩ := initWorkData_wf cfg f vals hr hd0 ctx hiw
     have hn : ctx.vars.length = vals.length := hwf.len
     simp only [hsdm, ne_eq, not_true_eq_false, if_false, hn] at hok ⊢
-    cases hl : shuffleLoop cfg vals.length (2 * vals.length + 8) { ctx := ctx } {} with
+    cases hl : shuffleLoop cfg vals.length (2 * vals.length + 2) { ctx := ctx } {} with
     | error x => (try rw [hl] at hok); simp at hok
     | ok e =>
       clear hok
